@@ -65,6 +65,15 @@ CLAIMS = {
              "loader model is tied to the code by U5 (every leaf of set_up_policy_environment vs the model).",
         technique="Coq proof + exhaustive vm_compute day sweep on regenerated YAML/registry + differential correspondence U5",
         design="6/C07"),
+    "C08": dict(
+        text="Theorem: a parameter read through constant keys cannot raise when the path exists in the environment (whatever branch "
+             "contains it); topological order implies unique names / acyclicity. Obligations regenerated every run for every date class "
+             ">= 2015-01-01 from the real loader's graph, the translated rule ASTs and the model environment: leaves are documented "
+             "inputs; every constant-key parameter path in every branch of every reachable rule exists; every rounded reachable rule has "
+             "a spec — except one recorded known finding (2017 H1). Engine runs compute all default targets on the first day of every "
+             "class for branch-forcing populations. Dynamic-key reads are covered only by the engine runs.",
+        technique="Coq proof (static_read_cannot_fail) + reflective checks over regenerated graph/ASTs/YAML + engine runs per date class",
+        design="6/C08"),
     "C10": dict(
         text="Theorems for every base>0, offset and value: rounded-offset is on the grid; direction inequalities for up/down/nearest; "
              "error below one step; grid points are fixed points. Obligation regenerated every run: for every group and date class the "
